@@ -434,3 +434,6 @@ func verifByteAt(b []byte, i int) byte {
 }
 
 func verifResultOwned(v any) bool { return true }
+
+func verifTraceLeaks(prefix string) int { return 0 }
+func verifTraceClass(class string)      {}
